@@ -94,6 +94,14 @@ type Run struct {
 	SimTime time.Duration
 	start   time.Time
 
+	Policy    int // 0: weighted random with stickiness; 1: PCT priorities
+	pctPrio   map[int]int
+	pctChange []int
+	pctEnv    int
+	pctLow    int
+	pctLastID int
+	pctStreak int
+
 	Viol     *Violation
 	StepCap  bool
 	Harness  string // non-empty: harness trouble (exit 2 material)
@@ -351,8 +359,63 @@ func (r *Run) loop() {
 				e.Do()
 			})
 		}
+		if r.Policy == 1 {
+			opts[r.pctPick(order, len(env))]()
+			continue
+		}
 		opts[r.Pick(weights, "sched")]()
 	}
+}
+
+// pctPick implements a PCT-style policy (Burckhardt et al.): every task gets a
+// random priority when first seen, the highest-priority runnable task runs, and
+// at a few pre-drawn step numbers the running task's priority drops below all
+// others. Environment events compete as one pseudo-task whose priority is
+// re-drawn after each event. Far fewer draws per run than the weighted policy.
+func (r *Run) pctPick(tasks []*verifrt.Task, nenv int) int {
+	if r.pctPrio == nil {
+		r.pctPrio = map[int]int{}
+		n := 1 + r.Choose(4, "pct-d")
+		for i := 0; i < n; i++ {
+			r.pctChange = append(r.pctChange, 1+r.Choose(600, "pct-change-point"))
+		}
+		r.pctEnv = 1 + r.Choose(1000, "pct-env-prio")
+	}
+	for _, c := range r.pctChange {
+		if c == r.Steps && r.lastTask != nil {
+			r.pctLow--
+			r.pctPrio[r.lastTask.ID] = r.pctLow
+		}
+	}
+	// fairness: a task that has run 300 steps in a row without finishing or
+	// blocking is polling (e.g. the reader between conn.Close and close(c.close));
+	// PCT assumes such loops yield, so its priority drops
+	if r.lastTask != nil && r.pctLastID == r.lastTask.ID {
+		r.pctStreak++
+		if r.pctStreak > 300 {
+			r.pctLow--
+			r.pctPrio[r.lastTask.ID] = r.pctLow
+			r.pctStreak = 0
+		}
+	} else if r.lastTask != nil {
+		r.pctLastID, r.pctStreak = r.lastTask.ID, 0
+	}
+	best, bestP := -1, -1<<30
+	for i, tk := range tasks {
+		p, ok := r.pctPrio[tk.ID]
+		if !ok {
+			p = 1 + r.Choose(1000, "pct-prio")
+			r.pctPrio[tk.ID] = p
+		}
+		if p > bestP {
+			best, bestP = i, p
+		}
+	}
+	if nenv > 0 && (best < 0 || r.pctEnv > bestP) {
+		r.pctEnv = 1 + r.Choose(1000, "pct-env-prio")
+		return len(tasks) + r.Choose(nenv, "pct-env")
+	}
+	return best
 }
 
 func hashName(s string) uint64 {
